@@ -16,6 +16,17 @@ RandomState, a conditioning probe) of the original, of every tracked factor/help
 member is re-taken after every step and must equal the fingerprint taken when the object was created; a
 conditioned copy must report the random-variable name of its source.
 
+Naming cells (the clause "a conditioned copy keeps the random-variable name of its original"): three small worlds
+(N1 chain y|x, N2 z|s,t with two hyper-parameters, N3 y|x,d through a LinearModel) are built in two ways - every
+original with an explicit ``name=``, or without it so that the library infers the name lazily from the variable the
+object is assigned to (the history then runs INSIDE the frame that holds those variables).  Every history of
+{cond(S), call0, to_likelihood, join = JointDistribution(target, other originals)} is executed on both constructions and
+for every point at which names are read for the first time (before the first operation, between two operations, only at
+the end); every live object - originals, conditioned copies, likelihoods, evaluated densities, joints and what they
+reduce to - is observed and compared (a) with what the history alone prescribes (name of a copy = name of its original;
+parameters and get_density names of a joint = names of its members minus the fixed ones) and (b) with the route
+"explicit names, everything read after every step".
+
 The depth-first search keeps live objects (legitimate exactly as long as nothing was altered - which is what is
 re-checked after every step); every detected alteration is confirmed by replaying its history on a FRESH world
 before it is reported, and the live world is rebuilt from scratch before the search continues.
@@ -35,16 +46,24 @@ RULE = ("cells = original object (every joint and every factor of graphs G1..G10
         "step; after every step the fingerprints of the original, the tracked factors/helpers and all "
         "pool members are re-taken and compared; states = (original, multiset of pool-member descriptors), "
         "transitions = operations executed, traces = maximal histories; a cell is non-trivial when at least one "
-        "derived object was created and fingerprinted")
+        "derived object was created and fingerprinted; naming cells = (world N1..N3) x focus original x first operation: every "
+        "history of {cond(S), call0, to_likelihood, join} below it is replayed on fresh objects for each (name given by name= | "
+        "inferred from the variable) x (names first read before step t0, t0 = 0..len) route and every live object is compared "
+        "with the name/parameter/density names the history prescribes and with the explicit-name read-first route")
 BOUND = {
     "quick": "depth 3 for factors and specials (depth 2 for the six data factors y|x,s that repeat G1.y structurally), "
              "depth 3 for the joints G3 and G9 (3 variables), depth 2 for the other joints; "
              "1 value catalogue (seed%3); conditioning alphabet = all non-empty subsets of the target's parameters "
-             "(<=3 parameters) or singletons + full set (>=4); horizon run: 200 alternating re-conditionings of G1",
+             "(<=3 parameters) or singletons + full set (>=4); horizon run: 200 alternating re-conditionings of G1; "
+             "naming: N1 (focus y, x) and N2 (focus z, s) to depth 3, N3 (focus y, d) to depth 2, 1 catalogue; routes: inferred names x "
+             "first read before step 0..len(history), explicit names x first read at the end, observing the name-related "
+             "entries (class, name, parameter names, conditioning variables, logd by keyword, get_density by name); join "
+             "combines the target only with the un-conditioned other originals",
     "thorough": "3 value catalogues at depth 3 for every factor and special; joints at depth 3 in catalogue 0 (G3, G9 in all "
                 "catalogues) and depth 2 otherwise; in addition depth 4 for factors with <=2 "
                 "parameters and for the specials in catalogue 0; horizon run: 2000 alternating "
-                "re-conditionings of G1, G2 and G9 posteriors (the Gibbs pattern)",
+                "re-conditionings of G1, G2 and G9 posteriors (the Gibbs pattern); naming: N1, N2, N3 to depth 3 with both "
+                "ways of naming x every first-read point and complete fingerprints, N1 also to depth 4 with the quick routes",
 }
 ASSUMPTIONS = [
     "behavioural equality is observed through a finite fingerprint (two probe points, one seeded draw, public "
@@ -57,6 +76,11 @@ ASSUMPTIONS = [
     "Gibbs sweeps are driven by numpy's global generator seeded immediately before (state restored afterwards)",
     "library objects are held only in obj*/_* names or containers so that stack-based name inference cannot pick "
     "up harness variable names",
+    "naming cells: an un-named original is referred to by exactly one admissible variable (its intended name, a local of "
+    "the naming frame the history runs in) in all frames the library searches; other ways a user program may hold such an "
+    "object (several aliases, containers only, module globals, attributes) are not enumerated",
+    "naming cells: the operation alphabet of a history is read off the explicit-name baseline world; the first-read "
+    "facet has one intermediate observation point per run (all live objects at once), not every subset of objects",
 ]
 
 RT = 1e-10
@@ -98,10 +122,10 @@ def cells(tier, seed):
     # assigned to) x when the name is first read; one cell per (world, focus original, first operation on the focus)
     for wid in NAMING_ORDER:
         for focus in NAMING_FOCUS[wid]:
-            d = NAMING_DEPTH[wid][0 if q else 1]
             for first in range(naming_first_ops(wid, focus)):
-                out.append({"kind": "naming", "world": wid, "focus": focus, "first": first, "cat": cats[0], "depth": d,
-                            "routes": "quick" if q else "all"})
+                for d, routes in NAMING_DEPTH[wid][0 if q else 1]:
+                    out.append({"kind": "naming", "world": wid, "focus": focus, "first": first, "cat": cats[0], "depth": d,
+                                "routes": routes})
     if q:
         out.append({"kind": "horizon", "graph": "G1", "cat": cats[0], "n": 200})
     else:
@@ -292,7 +316,12 @@ NAMING_FRAMES = {"N1": _frame_N1, "N2": _frame_N2, "N3": _frame_N3}
 NAMING_ORDER = ["N1", "N2", "N3"]
 # parameters of each focus original (conditioning variables + own name) - fixes the size of the root alphabet
 NAMING_FOCUS = {"N1": {"y": 2, "x": 1}, "N2": {"z": 3, "s": 1}, "N3": {"y": 3, "d": 1}}
-NAMING_DEPTH = {"N1": (3, 4), "N2": (3, 3), "N3": (2, 3)}       # (quick, thorough)
+# (quick, thorough): list of (depth, routes); routes "light" = names inferred x first read before step 0..L and explicit
+# names x first read at the end, name-related observations (LIGHT); "all" = both ways x every first-read point, complete
+# fingerprints
+NAMING_DEPTH = {"N1": ([(3, "light")], [(3, "all"), (4, "light")]),
+                "N2": ([(3, "light")], [(3, "all")]),
+                "N3": ([(2, "light")], [(3, "all")])}
 
 
 def naming_first_ops(wid, focus):
@@ -850,7 +879,7 @@ class Explorer:
         L = len(h2)
         read = "before-first-operation" if t0 == 0 else ("after-last-operation" if t0 >= L else "between-operations")
         made = w.how.get(j, "original")
-        sig = "C11|%s|naming:%s|%s,name=%s,first-read=%s" % (cls, made, entry, how, read)
+        sig = "C11|%s|naming:%s|%s,name=%s,first-read=%s" % (cls, made, entry, how, "before-first-operation" if t0 == 0 else "later")
         self.nfail[sig] = self.nfail.get(sig, 0) + 1
         if self.nfail[sig] > 10:
             self.res.count("failures_not_stored")
